@@ -378,6 +378,7 @@ type (
 
 func (p *schemaValidatorsPool) BorrowValidator() *SchemaValidator {
 	s := p.Get().(*SchemaValidator)
+	verifBorrowed(s)
 
 	p.mx.Lock()
 	defer p.mx.Unlock()
@@ -408,11 +409,13 @@ func (p *schemaValidatorsPool) RedeemValidator(s *SchemaValidator) {
 	}
 	p.debugMap[s] = statusRedeemed
 	p.redeemMap[s] = caller()
+	verifRedeemed(s)
 	p.Put(s)
 }
 
 func (p *objectValidatorsPool) BorrowValidator() *objectValidator {
 	s := p.Get().(*objectValidator)
+	verifBorrowed(s)
 
 	p.mx.Lock()
 	defer p.mx.Unlock()
@@ -442,11 +445,13 @@ func (p *objectValidatorsPool) RedeemValidator(s *objectValidator) {
 	}
 	p.debugMap[s] = statusRedeemed
 	p.redeemMap[s] = caller()
+	verifRedeemed(s)
 	p.Put(s)
 }
 
 func (p *sliceValidatorsPool) BorrowValidator() *schemaSliceValidator {
 	s := p.Get().(*schemaSliceValidator)
+	verifBorrowed(s)
 
 	p.mx.Lock()
 	defer p.mx.Unlock()
@@ -476,11 +481,13 @@ func (p *sliceValidatorsPool) RedeemValidator(s *schemaSliceValidator) {
 	}
 	p.debugMap[s] = statusRedeemed
 	p.redeemMap[s] = caller()
+	verifRedeemed(s)
 	p.Put(s)
 }
 
 func (p *itemsValidatorsPool) BorrowValidator() *itemsValidator {
 	s := p.Get().(*itemsValidator)
+	verifBorrowed(s)
 
 	p.mx.Lock()
 	defer p.mx.Unlock()
@@ -510,11 +517,13 @@ func (p *itemsValidatorsPool) RedeemValidator(s *itemsValidator) {
 	}
 	p.debugMap[s] = statusRedeemed
 	p.redeemMap[s] = caller()
+	verifRedeemed(s)
 	p.Put(s)
 }
 
 func (p *basicCommonValidatorsPool) BorrowValidator() *basicCommonValidator {
 	s := p.Get().(*basicCommonValidator)
+	verifBorrowed(s)
 
 	p.mx.Lock()
 	defer p.mx.Unlock()
@@ -544,11 +553,13 @@ func (p *basicCommonValidatorsPool) RedeemValidator(s *basicCommonValidator) {
 	}
 	p.debugMap[s] = statusRedeemed
 	p.redeemMap[s] = caller()
+	verifRedeemed(s)
 	p.Put(s)
 }
 
 func (p *headerValidatorsPool) BorrowValidator() *HeaderValidator {
 	s := p.Get().(*HeaderValidator)
+	verifBorrowed(s)
 
 	p.mx.Lock()
 	defer p.mx.Unlock()
@@ -578,11 +589,13 @@ func (p *headerValidatorsPool) RedeemValidator(s *HeaderValidator) {
 	}
 	p.debugMap[s] = statusRedeemed
 	p.redeemMap[s] = caller()
+	verifRedeemed(s)
 	p.Put(s)
 }
 
 func (p *paramValidatorsPool) BorrowValidator() *ParamValidator {
 	s := p.Get().(*ParamValidator)
+	verifBorrowed(s)
 
 	p.mx.Lock()
 	defer p.mx.Unlock()
@@ -612,11 +625,13 @@ func (p *paramValidatorsPool) RedeemValidator(s *ParamValidator) {
 	}
 	p.debugMap[s] = statusRedeemed
 	p.redeemMap[s] = caller()
+	verifRedeemed(s)
 	p.Put(s)
 }
 
 func (p *basicSliceValidatorsPool) BorrowValidator() *basicSliceValidator {
 	s := p.Get().(*basicSliceValidator)
+	verifBorrowed(s)
 
 	p.mx.Lock()
 	defer p.mx.Unlock()
@@ -646,11 +661,13 @@ func (p *basicSliceValidatorsPool) RedeemValidator(s *basicSliceValidator) {
 	}
 	p.debugMap[s] = statusRedeemed
 	p.redeemMap[s] = caller()
+	verifRedeemed(s)
 	p.Put(s)
 }
 
 func (p *numberValidatorsPool) BorrowValidator() *numberValidator {
 	s := p.Get().(*numberValidator)
+	verifBorrowed(s)
 
 	p.mx.Lock()
 	defer p.mx.Unlock()
@@ -680,11 +697,13 @@ func (p *numberValidatorsPool) RedeemValidator(s *numberValidator) {
 	}
 	p.debugMap[s] = statusRedeemed
 	p.redeemMap[s] = caller()
+	verifRedeemed(s)
 	p.Put(s)
 }
 
 func (p *stringValidatorsPool) BorrowValidator() *stringValidator {
 	s := p.Get().(*stringValidator)
+	verifBorrowed(s)
 
 	p.mx.Lock()
 	defer p.mx.Unlock()
@@ -714,11 +733,13 @@ func (p *stringValidatorsPool) RedeemValidator(s *stringValidator) {
 	}
 	p.debugMap[s] = statusRedeemed
 	p.redeemMap[s] = caller()
+	verifRedeemed(s)
 	p.Put(s)
 }
 
 func (p *schemaPropsValidatorsPool) BorrowValidator() *schemaPropsValidator {
 	s := p.Get().(*schemaPropsValidator)
+	verifBorrowed(s)
 
 	p.mx.Lock()
 	defer p.mx.Unlock()
@@ -748,11 +769,13 @@ func (p *schemaPropsValidatorsPool) RedeemValidator(s *schemaPropsValidator) {
 	}
 	p.debugMap[s] = statusRedeemed
 	p.redeemMap[s] = caller()
+	verifRedeemed(s)
 	p.Put(s)
 }
 
 func (p *formatValidatorsPool) BorrowValidator() *formatValidator {
 	s := p.Get().(*formatValidator)
+	verifBorrowed(s)
 
 	p.mx.Lock()
 	defer p.mx.Unlock()
@@ -782,11 +805,13 @@ func (p *formatValidatorsPool) RedeemValidator(s *formatValidator) {
 	}
 	p.debugMap[s] = statusRedeemed
 	p.redeemMap[s] = caller()
+	verifRedeemed(s)
 	p.Put(s)
 }
 
 func (p *typeValidatorsPool) BorrowValidator() *typeValidator {
 	s := p.Get().(*typeValidator)
+	verifBorrowed(s)
 
 	p.mx.Lock()
 	defer p.mx.Unlock()
@@ -816,11 +841,13 @@ func (p *typeValidatorsPool) RedeemValidator(s *typeValidator) {
 	}
 	p.debugMap[s] = statusRedeemed
 	p.redeemMap[s] = caller()
+	verifRedeemed(s)
 	p.Put(s)
 }
 
 func (p *schemasPool) BorrowSchema() *spec.Schema {
 	s := p.Get().(*spec.Schema)
+	verifBorrowed(s)
 
 	p.mx.Lock()
 	defer p.mx.Unlock()
@@ -850,11 +877,13 @@ func (p *schemasPool) RedeemSchema(s *spec.Schema) {
 	}
 	p.debugMap[s] = statusRedeemed
 	p.redeemMap[s] = caller()
+	verifRedeemed(s)
 	p.Put(s)
 }
 
 func (p *resultsPool) BorrowResult() *Result {
 	s := p.Get().(*Result).cleared()
+	verifBorrowed(s)
 
 	p.mx.Lock()
 	defer p.mx.Unlock()
@@ -890,6 +919,7 @@ func (p *resultsPool) RedeemResult(s *Result) {
 	}
 	p.debugMap[s] = statusRedeemed
 	p.redeemMap[s] = caller()
+	verifRedeemed(s)
 	p.Put(s)
 }
 
